@@ -30,3 +30,33 @@ func VerifC10_ReusePayload(up, idx, L int) {
 	c18Same(Command{CID: cid, Payload: fresh}, Command{CID: cid, Payload: used})
 	verifReach("done")
 }
+
+// A decoded command payload does not change when the caller overwrites the buffer it was decoded from.
+func VerifC10_AliasPayload(up, idx, L int) {
+	cid, _, ok := c18CID(up, idx)
+	if !ok {
+		verifReach("n/a")
+		return
+	}
+	p, err := GetCommandPayload(up != 0, cid)
+	if err != nil {
+		verifReach("no-payload")
+		return
+	}
+	data := verifNondetBytes("data", L)
+	if p.UnmarshalBinary(data) != nil {
+		verifReach("rejected")
+		return
+	}
+	out1, err := p.MarshalBinary()
+	if err != nil {
+		verifReach("not-encodable")
+		return
+	}
+	snap := verifCopy(out1)
+	verifHavoc(data) // the caller reuses its receive buffer
+	out2, err := p.MarshalBinary()
+	verifAssert(err == nil, "the decoded payload still encodes after the input buffer was overwritten")
+	verifAssert(verifBytesEq(out2, snap), "a decoded payload does not change when the buffer it was decoded from is overwritten")
+	verifReach("accepted")
+}
